@@ -52,7 +52,9 @@ def run(ctx, mod, pid):
             probe = common.Ctx(pid, 'seed', Facts(fdir), ctx.st, info)
             probe.known = []
             mod.run(probe)
-            fired = sorted({v['rule'] for v in probe.viol})
+            # what the same rules already report on /repo itself (known findings) is not a detection of the seed
+            base = set(k['key'] for k in ctx.known) | set(v['key'] for v in ctx.viol)
+            fired = sorted({v['rule'] for v in probe.viol if v['key'] not in base})
             hit = [r for r in rules if r in fired]
             if hit:
                 ctx.ok('seed-regression', inst, 'rule %s reports the seeded fault' % hit, nontrivial=True,
